@@ -20,19 +20,19 @@ CLAIMED["C01"] = ("4/C01", "Per calculator: year-length recurrence, day->year (e
                   "month-start sums, (y,m,d)->day number, validation (accept iff valid), ordering, bit-packing, range rejection, ISO fast path, eras; "
                   "full year range for Gregorian/ISO, Julian, Coptic, Um Al Qura and Islamic year-level lemmas; seeded 180-year windows "
                   "(all windows in thorough) for Persian x3, Hebrew x2, Badi with year functions tabulated from the real code; the implication "
-                  "lemmas => round trip is itself discharged by z3.", "windows not reached by a run are outside that run's claim; Hebrew month-order lemmas pending")
+                  "lemmas => round trip is itself discharged by z3.", "windows not reached by a run are outside that run's claim; three Badi year-table defects are listed as known findings")
 CLAIMED["C14"] = ("4/C14", "Real writer -> list-backed stream -> real reader round trips for counts (all ints), signed counts (int32), "
                   "milliseconds (+-1 day, accepted range exact), offsets, fixed-width words (modulo semantics), transitions (every pair of "
                   "tick-aligned instants, partitioned by the documented encoding: hours-since-previous / minutes-since-1800 / raw), markers, "
                   "pooled strings, inline UTF-8 strings, _ZoneYearOffset (all fields); canonical compact forms of milliseconds and transitions "
                   "asserted on the bytes written; the literal re-encoding of every rule-based zone of both database files is a labelled concrete premise.",
-                  "composite lemmas use primitive channels whose contracts are the primitive lemmas; recurrence/alternating-map/precalculated-zone round trips pending")
+                  "composite lemmas use primitive channels whose contracts are the primitive lemmas; whole recurrence / alternating-map / precalculated-zone round trips are not claimed (their parts are)")
 CLAIMED["C09"] = ("4/C09", "plus_days/plus_weeks: the real _FixedLengthDatePeriodField.add over an abstract calendar (any adjacent year "
                   "lengths >= the measured shortest real year, any month/day-of-year position, |n| <= 10**7) plus per-calendar fast/slow path lemmas "
                   "in (year, day-of-year) coordinates; plus_months/plus_years vs the (year*M + month) reference with day clamping and overflow, "
                   "months-between maximality, Period.between for all 63 time-unit subsets over all pairs of times, YearMonth between, "
                   "normalize / to_duration over the fixed-length total.",
-                  "LocalDate/LocalDateTime between with multi-unit date subsets, Hebrew/Badi month arithmetic pending; per-calendar lemmas use seeded windows in quick")
+                  "LocalDate/LocalDateTime between with multi-unit date subsets and Hebrew/Badi month arithmetic are not claimed; per-calendar lemmas use seeded windows in quick")
 CLAIMED["C10"] = ("4/C10", "Every LocalTime/OffsetTime accessor over all nanoseconds-of-day (and all offsets); all seven _TimePeriodField additions "
                   "(wrap and whole-day carry) for |amount*unit| <= 10**24 ns; every factory/constructor accepts exactly its documented range; "
                   "LocalDateTime.plus_<unit> over an abstract day-number date (contract C09.plusdays); LocalTime +/- Period per unit; ordering.",
@@ -77,7 +77,7 @@ CLAIMED["C11"] = ("4/C11", "Real OffsetDateTime/OffsetDate/OffsetTime/Instant co
                   "contract C01 + C09): construction local = instant + offset, to_instant inverse, with_offset (both double day carries), "
                   "with_calendar, +/- Duration in all six spellings (instant moves exactly; offset and calendar retained), plus_<unit>, "
                   "value - value = instant difference across offsets and calendars, date/time adjusters, OffsetDate/OffsetTime recombination.",
-                  "ZonedDateTime arithmetic over a symbolic zone is claimed under C05's SymZone lemmas when built; real-calendar retention lemma in thorough only")
+                  "ZonedDateTime arithmetic over a symbolic zone is claimed under C05's SymZone lemmas; real-calendar retention lemma in thorough only")
 CLAIMED["C16"] = ("4/C16", "All 49 regular and 21 BCL-style week-year rules over an ABSTRACT calendar (arbitrary year start, arbitrary lengths "
                   "353..385 of five adjacent years): round trip of (week-year, week, weekday) for every day of the year, week within the reported "
                   "weeks, week-year within +-1; the same with the calendar range ending exactly at the year's end/start (seeded partitions in quick, "
@@ -121,7 +121,7 @@ CLAIMED["C15"] = ("4/C15", "timedelta <-> Duration over timedelta's whole range 
                   "model of the stdlib types (ordinal + microsecond-of-day, OverflowError outside [1, 3652059]) injected into the repository "
                   "modules: from_date / to_date / from_naive_datetime / to_naive_datetime glue over the whole ordinal range, year-1 boundary; "
                   "Offset <-> timedelta (float by design) and the model's agreement with CPython as labelled concrete premises.",
-                  "aware datetimes / Instant.to_datetime_utc pending; ISO date <-> ordinal agreement is C02")
+                  "aware datetimes / Instant.to_datetime_utc are not claimed; ISO date <-> ordinal agreement is C02")
 CLAIMED["C08"] = ("4/C08", "parse(s) for EVERY text of length <= 4 (5 in thorough) under 12 offset/time/date/duration/date-time patterns; texts with the "
                   "pattern's separators and every numeric field rendered from a symbolic integer (valid and out-of-range values); the parse buckets "
                   "as units over every accumulated value (duration total, offset fields): a result object is always returned, successes carry valid "
@@ -140,7 +140,8 @@ CLAIMED["C17"] = ("4/C17", "Built-in ISO patterns against a reference ISO-8601 e
                   "trailing zeros / exactly nine digits; fractional partitions in thorough), the general offset patterns for every offset "
                   "(fixed two-digit fields, Z for zero), InstantPattern.extended_iso ending in Z (thorough). The reference writer's agreement "
                   "with CPython's isoformat/fromisoformat is a labelled concrete premise.",
-                  "the standard library is represented by the reference writer (same family of technique cannot execute C isoformat symbolically)")
+                  "the standard library is represented by the reference writer (C isoformat cannot be executed symbolically); the fraction-scaling "
+                  "float kernel of the parser is decided separately in z3's IEEE-754 theory for every digit string of 1..9 digits (parse_fraction_kernel)")
 NOT_BUILT = {}
 
 NA_REASON = "check not built yet in this round (design in DESIGN.md section 4); no claim is made"
